@@ -223,3 +223,46 @@ Proof.
   exists (fun p => (- inject_Z (p * p))%Q), (fun f x0 => ([x0; x0 + 1], x0)).
   split; [intros f x0; cbn [snd]; lra|]. vm_compute. reflexivity.
 Qed.
+
+(* ------------------------------------------------------------------ field of view *)
+Lemma nth_map_seq_z : forall (f : nat -> Z) n j d, (j < n)%nat -> nth j (map f (seq 0 n)) d = f j.
+Proof.
+  intros f n j d H. rewrite nth_indep with (d' := f 0%nat) by (now rewrite map_length, seq_length).
+  rewrite map_nth, seq_nth by exact H. reflexivity.
+Qed.
+
+Lemma slice_indices_spec : forall n start stop step, 0 < step -> 0 <= start ->
+  let l := slice_indices n start stop step in
+  (forall k, (k < length l)%nat -> nth k l 0 = start + Z.of_nat k * step) /\
+  Forall (fun i => start <= i < Z.min stop n) l /\
+  (forall k, start + Z.of_nat k * step < Z.min stop n -> (k < length l)%nat).
+Proof.
+  intros n start stop step Hs H0 l. subst l. unfold slice_indices, slice_len.
+  set (hi := Z.min stop n).
+  destruct (hi <=? start) eqn:E.
+  - apply Z.leb_le in E. cbn [Z.to_nat seq map length]. repeat split; try (intros; lia); try constructor; try (intros k Hk; nia).
+  - apply Z.leb_gt in E. set (L := (hi - start + step - 1) / step).
+    assert (HL : step * L <= hi - start + step - 1 < step * L + step).
+    { unfold L. pose proof (Z.div_mod (hi - start + step - 1) step ltac:(lia)) as D.
+      pose proof (Z.mod_pos_bound (hi - start + step - 1) step Hs) as M. lia. }
+    assert (L0 : 0 <= L) by nia.
+    rewrite map_length, seq_length. split; [|split].
+    + intros k Hk. apply (nth_map_seq_z (fun k0 => start + Z.of_nat k0 * step)). exact Hk.
+    + apply Forall_forall. intros i Hi. apply in_map_iff in Hi. destruct Hi as (k & <- & Hk). apply in_seq in Hk.
+      assert (Z.of_nat k < L) by lia. nia.
+    + intros k Hk. assert (Z.of_nat k < L) by nia. lia.
+Qed.
+
+Lemma ideal_spacing_post : forall fuel data n0 n1 n2 np s0 s1 s2 r0 r1 r2,
+  ideal_spacing_loop fuel data n0 n1 n2 np s0 s1 s2 = Some (r0, r1, r2) ->
+  count_sub data n0 n1 n2 r0 r1 r2 <= np /\ s0 <= r0 /\ s1 <= r1 /\ s2 <= r2 /\
+  (r0 - s0) + (r1 - s1) + (r2 - s2) <= Z.of_nat fuel.
+Proof.
+  induction fuel as [|f IH]; intros data n0 n1 n2 np s0 s1 s2 r0 r1 r2 E; cbn [ideal_spacing_loop] in E.
+  - destruct (count_sub data n0 n1 n2 s0 s1 s2 <=? np) eqn:C; [|discriminate].
+    apply Z.leb_le in C. inversion E; subst. lia.
+  - destruct (count_sub data n0 n1 n2 s0 s1 s2 <=? np) eqn:C.
+    + apply Z.leb_le in C. inversion E; subst. lia.
+    + destruct (pick_dir n0 n1 n2 s0 s1 s2 =? 0); [|destruct (pick_dir n0 n1 n2 s0 s1 s2 =? 1)];
+        apply IH in E; lia.
+Qed.
